@@ -34,7 +34,7 @@ ASSUMPTIONS = ['program traces are identifier-free by construction (checked: the
                'not contain a role-prefixed name)',
                'failures are attributed to the listed mechanisms R1..R5 only when the selected '
                'identifier carries that role']
-SIZES = {'quick': (96, 18), 'thorough': (1500, 40)}
+SIZES = {'quick': (96, 18), 'thorough': (700, 40)}
 TIMEOUT = {'quick': 1500, 'thorough': 6 * 3600}
 FRESH = 'zq_fresh_name'
 
